@@ -326,9 +326,8 @@ impl Check for C15 {
                         if let Some(len) = kind.strip_prefix("error-len-") {
                             let len: usize = len.parse().unwrap();
                             let msg: String = FAULT_MESSAGE.chars().take(len).collect();
-                            if !o.text.contains("reported an error") {
-                                sh.violation(format!("C15|error-not-from-solver|{kind}"), format!("{ctxt}: returned error is not a solver-reported error: {}", o.text), json!({}));
-                            } else if !o.text.contains(&msg) {
+                            // (only the solver's own message is pinned by the property, not the wording around it)
+                            if !o.text.contains(&msg) {
                                 sh.violation(format!("C15|message-mangled|{kind}"), format!("{ctxt}: injected message `{msg}` does not arrive intact: {:?}", o.text), json!({"spec": spec, "fault": kind, "at": n}));
                             }
                         }
